@@ -36,38 +36,36 @@ theorem stepOk_of {s s' : Sys} {op : Op} {r : Res} {b' : Buf} (hq : Quiet s') (h
   { quiet := hq, inv := hs.inv hi, abs := by rw [hs.abs]; exact habs, res := hres }
 
 theorem execOp_append {s : Sys} {es : List Entry} (hq : Quiet s) (hi : s.buf.Inv)
-    (hwf : wfOp s.buf.abs (.append es) = true) (hb : s.buf.segs.arch.length + es.length ≤ maxSegs) :
+    (hwf : wfOp s.buf.abs (.append es) = true) :
     StepOk s (.append es) (execOp s (.append es)).1 (execOp s (.append es)).2.1 := by
   simp only [wfOp, Bool.and_eq_true] at hwf
   obtain ⟨h1, h2, h3⟩ := next_hyps hi
-  have hins := hi.insertToMemory hwf.1 hwf.2 h1 h2 h3 hb
+  have hins := hi.insertToMemory hwf.1 hwf.2 h1 h2 h3
   simp only [execOp, Sys.append]
   by_cases he : es.isEmpty = true
   · have hes : es = [] := by simpa using he
     subst hes
     simp only [List.isEmpty_nil, if_true]
-    exact stepOk_of hq (SameBuf.refl _) hi (by simp [Plain.exec, Plain.append]) (by simp [resAgree]) (by simp [opEntries])
+    exact stepOk_of hq (SameBuf.refl _) hi (by simp [Plain.exec, Plain.append]) (by simp [resAgree])
   · simp only [he, if_false]
     exact stepOk_of (b' := s.buf.insertToMemory es) ⟨hq.1, hq.2⟩ (SameBuf.refl _) hins.1
-      (by simp [Plain.exec, hins.2.1]) (by simp [resAgree]) (by simpa [opEntries] using hins.2.2.1)
+      (by simp [Plain.exec, hins.2.1]) (by simp [resAgree])
 
 /-- `append_entries(tail)` as the last part of an operation, for a tail that starts right above the end -/
 theorem append_tail_ok {s : Sys} {tail : List Entry} (hi : s.buf.Inv) (hne : tail ≠ [])
     (hpos : termsPos tail = true)
     (hk : ∃ k, contigFrom k tail = true ∧ (∀ x ∈ s.buf.mem, x.index < k) ∧ (s.buf.mem ≠ [] → k = lastIdx s.buf.mem + 1) ∧
-      (s.buf.mem = [] → k = s.buf.purgedI + 1))
-    (hb : s.buf.segs.arch.length + tail.length ≤ maxSegs) :
+      (s.buf.mem = [] → k = s.buf.purgedI + 1)) :
     (s.append tail).buf.Inv ∧ (s.append tail).buf.abs = s.buf.abs.append tail ∧
-    (s.append tail).buf.segs.arch.length ≤ s.buf.segs.arch.length + tail.length ∧
     (s.append tail).alive = s.alive ∧ (s.append tail).queue = s.queue := by
   obtain ⟨k, hc, h1, h2, h3⟩ := hk
-  have hins := hi.insertToMemory hc hpos h1 h2 h3 hb
+  have hins := hi.insertToMemory hc hpos h1 h2 h3
   have : tail.isEmpty = false := by simpa using hne
   simp only [Sys.append, this, Bool.false_eq_true, if_false]
-  refine ⟨hins.1, hins.2.1, hins.2.2.1, ?_, ?_⟩ <;> simp
+  refine ⟨hins.1, hins.2.1, ?_, ?_⟩ <;> simp
 
 theorem execOp_fca {s : Sys} {prevI prevT : Nat} {es : List Entry} {sch : Sched} (hq : Quiet s) (hi : s.buf.Inv)
-    (hwf : wfOp s.buf.abs (.fca prevI prevT es sch) = true) (hb : s.buf.segs.arch.length + es.length ≤ maxSegs) :
+    (hwf : wfOp s.buf.abs (.fca prevI prevT es sch) = true) :
     StepOk s (.fca prevI prevT es sch) (execOp s (.fca prevI prevT es sch)).1 (execOp s (.fca prevI prevT es sch)).2.1 := by
   have hpc := preClock_frame s sch hq
   simp only [execOp]
@@ -92,23 +90,22 @@ theorem execOp_fca {s : Sys} {prevI prevT : Nat} {es : List Entry} {sch : Sched}
       obtain ⟨d, n, hd⟩ := hio.1
       rw [hd, hb2]; simp [Buf.resetMem, hb1]
     have habs3 : (s2.ioRun sch.prio).buf.abs = s.buf.abs.reset := by
-      rw [hio.1.abs, hb2, hrm.2.1, hb1]
-    have hseg3 : (s2.ioRun sch.prio).buf.segs.arch.length = 0 := by rw [hio.1.segs, hb2]; exact hrm.2.2
+      rw [hio.1.abs, hb2, hrm.2, hb1]
     by_cases hes : es = []
     · subst hes
       have happ : (s2.ioRun sch.prio).append [] = s2.ioRun sch.prio := by simp [Sys.append]
       rw [happ]
       have hpo := postClock_frame (s2.ioRun sch.prio) sch hio.2
       exact stepOk_of hpo.2 hpo.1 hi3 (by simp [Plain.exec, Plain.fca, hr, habs3, Plain.reset])
-        (by simp [resAgree, Plain.exec, Plain.fca, hr]) (by rw [hseg3]; omega)
+        (by simp [resAgree, Plain.exec, Plain.fca, hr])
     · have hat := append_tail_ok (s := s2.ioRun sch.prio) (tail := es) hi3 hes hwf.2
         ⟨s.buf.purgedI + 1, by simpa [Buf.abs] using hwf.1, by rw [hmem3]; simp, by rw [hmem3]; simp,
-          fun _ => by rw [hpi3]⟩ (by rw [hseg3]; omega)
-      have hq4 : Quiet ((s2.ioRun sch.prio).append es) := ⟨by rw [hat.2.2.2.1]; exact hio.2.1, by rw [hat.2.2.2.2]; exact hio.2.2⟩
+          fun _ => by rw [hpi3]⟩
+      have hq4 : Quiet ((s2.ioRun sch.prio).append es) := ⟨by rw [hat.2.2.1]; exact hio.2.1, by rw [hat.2.2.2]; exact hio.2.2⟩
       have hpo := postClock_frame ((s2.ioRun sch.prio).append es) sch hq4
       exact stepOk_of hpo.2 hpo.1 hat.1
         (by rw [hat.2.1, habs3]; simp [Plain.exec, Plain.fca, hr, Plain.reset, Plain.append])
-        (by simp [resAgree, Plain.exec, Plain.fca, hr]) (by have := hat.2.2.1; rw [hseg3] at this; simp only [opEntries]; omega)
+        (by simp [resAgree, Plain.exec, Plain.fca, hr])
   · simp only [wfOp, hr, if_false, Bool.and_eq_true] at hwf
     have hspec := hi1.fcaDecide_spec (prevI := prevI) (prevT := prevT) (es := es)
       hwf.1.1 hwf.1.2 hwf.2 hr
@@ -121,27 +118,24 @@ theorem execOp_fca {s : Sys} {prevI prevT : Nat} {es : List Entry} {sch : Sched}
       simp only [FcaSpec] at hspec
       have hpo := postClock_frame s1 sch hq1
       exact stepOk_of hpo.2 hpo.1 hi1 (by rw [habs1] at hspec ⊢; simp [Plain.exec, hspec])
-        (by rw [habs1] at hspec; simp [resAgree, Plain.exec, hspec]) (by rw [hb1]; omega)
+        (by rw [habs1] at hspec; simp [resAgree, Plain.exec, hspec])
     | noop =>
       simp only [FcaSpec] at hspec
       have hpo := postClock_frame s1 sch hq1
       exact stepOk_of hpo.2 hpo.1 hi1 (by rw [habs1] at hspec ⊢; simp [Plain.exec, hspec])
-        (by rw [habs1] at hspec; simp [resAgree, Plain.exec, hspec]) (by rw [hb1]; omega)
+        (by rw [habs1] at hspec; simp [resAgree, Plain.exec, hspec])
     | appendTail tail =>
       simp only [FcaSpec] at hspec
       obtain ⟨hne, hlen, hlast, hpos, hk, hfca⟩ := hspec
-      have hat := append_tail_ok (s := s1) (tail := tail) hi1 hne hpos hk (by rw [hb1]; omega)
-      have hq2 : Quiet (s1.append tail) := ⟨by rw [hat.2.2.2.1]; exact hq1.1, by rw [hat.2.2.2.2]; exact hq1.2⟩
+      have hat := append_tail_ok (s := s1) (tail := tail) hi1 hne hpos hk
+      have hq2 : Quiet (s1.append tail) := ⟨by rw [hat.2.2.1]; exact hq1.1, by rw [hat.2.2.2]; exact hq1.2⟩
       have hpo := postClock_frame (s1.append tail) sch hq2
       exact stepOk_of hpo.2 hpo.1 hat.1 (by rw [hat.2.1]; rw [habs1] at hfca ⊢; simp [Plain.exec, hfca])
         (by rw [habs1] at hfca; simp [resAgree, Plain.exec, hfca, hlast])
-        (by have := hat.2.2.1
-            have hb1' : s1.buf.segs.arch.length = s.buf.segs.arch.length := by rw [hb1]
-            simp only [opEntries]; omega)
     | replace d tail =>
       simp only [FcaSpec] at hspec
       obtain ⟨_, hlen, hlast, hpos, hd1, hd2, hne, hc, hfca⟩ := hspec
-      have hrep := hi1.replaceMem hd1 hd2 hne hc hpos (by rw [hb1]; omega)
+      have hrep := hi1.replaceMem hd1 hd2 hne hc hpos
       obtain ⟨s2, he2, hb2, hq2⟩ := Sys.enqueue_quiet { s1 with buf := s1.buf.replaceMem d tail } (.replace d tail)
         ⟨hq1.1, hq1.2⟩ (by simp)
       simp only [he2]
@@ -151,11 +145,8 @@ theorem execOp_fca {s : Sys} {prevI prevT : Nat} {es : List Entry} {sch : Sched}
         have : SameBuf (s1.buf.replaceMem d tail) s2.buf := SameBuf.of_eq hb2
         exact this.trans (hio.1.trans hpo.1)
       exact stepOk_of hpo.2 hsb hrep.1
-        (by rw [hrep.2.1]; rw [habs1] at hfca; simp only [Plain.exec, hfca]; rw [hb1])
+        (by rw [hrep.2]; rw [habs1] at hfca; simp only [Plain.exec, hfca]; rw [hb1])
         (by rw [habs1] at hfca; simp [resAgree, Plain.exec, hfca, hlast])
-        (by have := hrep.2.2
-            have hb1' : s1.buf.segs.arch.length = s.buf.segs.arch.length := by rw [hb1]
-            simp only [opEntries]; omega)
 
 theorem execOp_purge {s : Sys} {ci ct : Nat} {sch : Sched} (hq : Quiet s) (hi : s.buf.Inv)
     (hwf : wfOp s.buf.abs (.purge ci ct sch) = true) :
@@ -180,7 +171,6 @@ theorem execOp_purge {s : Sys} {ci ct : Nat} {sch : Sched} (hq : Quiet s) (hi : 
     have : SameBuf (s1.buf.purgeMem ci ct) s2.buf := SameBuf.of_eq hb2
     exact this.trans (hio.1.trans hpo.1)
   exact stepOk_of hpo.2 hsb hp.1 (by rw [hp.2.1, hb1]; rfl) (by simp [resAgree])
-    (by rw [hp.2.2, hb1]; omega)
 
 theorem execOp_reset {s : Sys} {sch : Sched} (hq : Quiet s) (hi : s.buf.Inv) :
     StepOk s (.reset sch) (execOp s (.reset sch)).1 (execOp s (.reset sch)).2.1 := by
@@ -198,7 +188,7 @@ theorem execOp_reset {s : Sys} {sch : Sched} (hq : Quiet s) (hi : s.buf.Inv) :
   have hsb : SameBuf s1.buf.resetMem (postClock (s2.ioRun sch.prio) sch).buf := by
     have : SameBuf s1.buf.resetMem s2.buf := SameBuf.of_eq hb2
     exact this.trans (hio.1.trans hpo.1)
-  exact stepOk_of hpo.2 hsb hrm.1 (by rw [hrm.2.1, hb1]; rfl) (by simp [resAgree]) (by rw [hrm.2.2]; omega)
+  exact stepOk_of hpo.2 hsb hrm.1 (by rw [hrm.2, hb1]; rfl) (by simp [resAgree])
 
 theorem execOp_flush {s : Sys} {sch : Sched} (hq : Quiet s) (hi : s.buf.Inv) :
     StepOk s (.flush sch) (execOp s (.flush sch)).1 (execOp s (.flush sch)).2.1 := by
@@ -211,12 +201,12 @@ theorem execOp_flush {s : Sys} {sch : Sched} (hq : Quiet s) (hi : s.buf.Inv) :
   by_cases h0 : s1.buf.maxIdx = 0
   · simp only [h0, if_true]
     have hpo := postClock_frame s1 sch hq1
-    exact stepOk_of hpo.2 hpo.1 hi1 (by rw [hb1]; rfl) (by simp [resAgree]) (by rw [hb1]; omega)
+    exact stepOk_of hpo.2 hpo.1 hi1 (by rw [hb1]; rfl) (by simp [resAgree])
   · simp only [h0, if_false]
     by_cases h1 : s1.buf.maxIdx ≤ s1.buf.durable
     · simp only [h1, if_true]
       have hpo := postClock_frame s1 sch hq1
-      exact stepOk_of hpo.2 hpo.1 hi1 (by rw [hb1]; rfl) (by simp [resAgree]) (by rw [hb1]; omega)
+      exact stepOk_of hpo.2 hpo.1 hi1 (by rw [hb1]; rfl) (by simp [resAgree])
     · simp only [h1, if_false]
       obtain ⟨s2, he2, hb2, hq2⟩ := Sys.enqueue_quiet s1 .flush hq1 (by simp)
       simp only [he2, Option.map_some]
@@ -225,38 +215,37 @@ theorem execOp_flush {s : Sys} {sch : Sched} (hq : Quiet s) (hi : s.buf.Inv) :
       have hsb : SameBuf s1.buf (postClock (s2.ioRun sch.prio) sch).buf := by
         have : SameBuf s1.buf s2.buf := SameBuf.of_eq hb2
         exact this.trans (hio.1.trans hpo.1)
-      exact stepOk_of hpo.2 hsb hi1 (by rw [hb1]; rfl) (by simp [resAgree]) (by rw [hb1]; omega)
+      exact stepOk_of hpo.2 hsb hi1 (by rw [hb1]; rfl) (by simp [resAgree])
 
 theorem execOp_alloc {s : Sys} {n : Nat} (hq : Quiet s) (hi : s.buf.Inv) :
     StepOk s (.alloc n) (execOp s (.alloc n)).1 (execOp s (.alloc n)).2.1 := by
   simp only [execOp, Buf.alloc]
   by_cases hn : n = 0
   · simp only [hn, if_true]
-    exact stepOk_of (b' := s.buf) hq (SameBuf.refl _) hi rfl (by simp [resAgree]) (Nat.le_add_right _ _)
+    exact stepOk_of (b' := s.buf) hq (SameBuf.refl _) hi rfl (by simp [resAgree])
   · simp only [hn, if_false]
     exact stepOk_of (b' := s.buf) ⟨hq.1, hq.2⟩ ⟨s.buf.durable, s.buf.nextId + n, rfl⟩ hi rfl (by simp [resAgree])
-      (Nat.le_add_right _ _)
+     
 
 theorem execOp_get {s : Sys} {lo hi' : Nat} (hq : Quiet s) (hi : s.buf.Inv) :
     StepOk s (.get lo hi') (execOp s (.get lo hi')).1 (execOp s (.get lo hi')).2.1 := by
   simp only [execOp]
   exact stepOk_of hq (SameBuf.refl _) hi rfl (by simp [resAgree, Plain.exec, Buf.getRange, Plain.getRange, Buf.abs])
-    (by omega)
 
 theorem execOp_io {s : Sys} {sch : Sched} (hq : Quiet s) (hi : s.buf.Inv) :
     StepOk s (.io sch) (execOp s (.io sch)).1 (execOp s (.io sch)).2.1 := by
   have hpc := preClock_frame s sch hq
   simp only [execOp]
   have hio := Sys.ioRun_frame (preClock s sch) sch.prio hpc.2
-  exact stepOk_of hio.2 (by rw [← hpc.1]; exact hio.1) hi rfl (by simp [resAgree]) (by omega)
+  exact stepOk_of hio.2 (by rw [← hpc.1]; exact hio.1) hi rfl (by simp [resAgree])
 
 /-- **Refinement step.** -/
 theorem execOp_refines {s : Sys} {op : Op} (hq : Quiet s) (hi : s.buf.Inv) (hwf : wfOp s.buf.abs op = true)
-    (hb : s.buf.segs.arch.length + opEntries op ≤ maxSegs) :
+ :
     StepOk s op (execOp s op).1 (execOp s op).2.1 := by
   cases op with
-  | append es => exact execOp_append hq hi hwf hb
-  | fca prevI prevT es sch => exact execOp_fca hq hi hwf hb
+  | append es => exact execOp_append hq hi hwf
+  | fca prevI prevT es sch => exact execOp_fca hq hi hwf
   | purge ci ct sch => exact execOp_purge hq hi hwf
   | reset sch => exact execOp_reset hq hi
   | flush sch => exact execOp_flush hq hi
